@@ -468,6 +468,17 @@ fn check_balance<'ctx>(
         return Ok(());
     }
     if let Some((a1, a2)) = balance.maybe_pair() {
+        // Two remaining commodities are an implied exchange only when
+        // both amounts are non-zero and have the opposite signs.
+        if a1.value.is_zero()
+            || a2.value.is_zero()
+            || a1.value.is_sign_positive() == a2.value.is_sign_positive()
+        {
+            return Err(BookKeepError::UnbalancedPostings(format!(
+                "{}",
+                balance.as_inline_display()
+            )));
+        }
         // fill in converted amount.
         for p in postings.iter_mut() {
             let amount: Result<SingleAmount<'_>, _> = (&p.amount).try_into();
